@@ -83,24 +83,28 @@ def get_aug_config(intensity_aug, geometric_aug):
         if isinstance(geometric_aug, str):
             geometric_aug = [geometric_aug]
 
+        # The affine augmentations share one transform: switch off the ones that are
+        # not requested, then let every requested one enable its own parameter.
+        if any(g in ("rotation", "scale", "translate") for g in geometric_aug):
+            aug_config.geometric.affine_p = 1.0
+            if "rotation" not in geometric_aug:
+                aug_config.geometric.rotation = 0
+            if "scale" not in geometric_aug:
+                aug_config.geometric.scale = (1.0, 1.0)
+            if "translate" not in geometric_aug:
+                aug_config.geometric.translate_height = 0
+                aug_config.geometric.translate_width = 0
+
         for g in geometric_aug:
             if g == "rotation":
                 aug_config.geometric.affine_p = 1.0
-                aug_config.geometric.scale = (1.0, 1.0)
-                aug_config.geometric.translate_height = 0
-                aug_config.geometric.translate_width = 0
             elif g == "scale":
                 aug_config.geometric.scale = (0.9, 1.1)
                 aug_config.geometric.affine_p = 1.0
-                aug_config.geometric.rotation = 0
-                aug_config.geometric.translate_height = 0
-                aug_config.geometric.translate_width = 0
             elif g == "translate":
                 aug_config.geometric.translate_height = 0.2
                 aug_config.geometric.translate_width = 0.2
                 aug_config.geometric.affine_p = 1.0
-                aug_config.geometric.rotation = 0
-                aug_config.geometric.scale = (1.0, 1.0)
             elif g == "erase_scale":
                 aug_config.geometric.erase_p = 1.0
             elif g == "mixup":
